@@ -16,7 +16,7 @@ theorem addConsolidate_of_textOf_none (f : Forest) (node : Nat) (prev next : Opt
     (h : f.textOf node = none) : f.addConsolidate node prev next = (f, false) := by
   unfold addConsolidate; rw [h]; split <;> rfl
 
-theorem addConsolidate_off (f : Forest) (node : Nat) (prev next : Option Nat)
+theorem addConsolidate_off_ff (f : Forest) (node : Nat) (prev next : Option Nat)
     (h : f.consolidation = false) : f.addConsolidate node prev next = (f, false) := by
   unfold addConsolidate; simp [h]
 
@@ -73,16 +73,16 @@ theorem get?_of_mem_subtrees_rest (h : RootAt f X tc Y) {s : HTree} (hs : s ∈ 
 theorem mem_rest_of_find {p : Nat} {tp : HTree} (hp : findList? p (X ++ Y) = some tp) :
     p ∈ handlesList (X ++ Y) := by
   obtain ⟨hs, rfl⟩ := mem_subtreesList_of_findList? hp
-  exact handles_subset_of_mem_subtreesList hs _ (handle_mem_handles tp)
+  exact handles_subset_of_mem_subtreesList hs _ (handle_mem_handles_ff tp)
 
 theorem kid_handle_ne {p : Nat} {tp k : HTree} (h : RootAt f X tc Y)
     (hp : findList? p (X ++ Y) = some tp) (hk : k ∈ tp.kids) : k.handle ≠ tc.handle := by
   obtain ⟨hs, _⟩ := mem_subtreesList_of_findList? hp
   have hk' : k ∈ subtreesList (X ++ Y) := subtreesList_trans _ tp hs k (kid_mem_subtrees hk)
   intro e
-  apply h.not_mem_rest tc.handle (handle_mem_handles tc)
+  apply h.not_mem_rest tc.handle (handle_mem_handles_ff tc)
   rw [← e]
-  exact handles_subset_of_mem_subtreesList hk' _ (handle_mem_handles k)
+  exact handles_subset_of_mem_subtreesList hk' _ (handle_mem_handles_ff k)
 
 theorem structureCheck_ok (h : RootAt f X tc Y) {p : Nat} {tp : HTree}
     (hp : findList? p (X ++ Y) = some tp)
@@ -123,7 +123,7 @@ theorem append_spec (h : RootAt f X tc Y) {p : Nat} {tp : HTree}
   have hnext : f.nextSibling tc.handle = none := by unfold Forest.nextSibling; rw [h.ctx?_self]
   have hadd : f.addConsolidate tc.handle (f.lastChild p) none = (f, false) := by
     cases hc : f.consolidation with
-    | false => exact Forest.addConsolidate_off _ _ _ _ hc
+    | false => exact Forest.addConsolidate_off_ff _ _ _ _ hc
     | true =>
       cases ht : tc.value.isText with
       | false =>
@@ -148,7 +148,7 @@ theorem append_spec (h : RootAt f X tc Y) {p : Nat} {tp : HTree}
             · cases hl
         · intro n hn; cases hn
   have hne : (p == tc.handle) = false := by
-    have : p ≠ tc.handle := fun e => h.rest_not_mem_tc hpm (e ▸ handle_mem_handles tc)
+    have : p ≠ tc.handle := fun e => h.rest_not_mem_tc hpm (e ▸ handle_mem_handles_ff tc)
     simpa using this
   have hanc : (f.ancestors p).contains tc.handle = false := by
     simpa using h.ancestors_rest hpm
